@@ -3,7 +3,6 @@ import Chess.Lemmas.SpecSums
 import Chess.Lemmas.ScoreRangePop
 import Chess.Lemmas.ScoreRangeExamples
 import Chess.Lemmas.FnsEquiv.Piece
-import Chess.Lemmas.FnsEquiv.Search
 
 /-!
 # C16 — the evaluation score is the piece-square sum of the board
